@@ -124,4 +124,24 @@ Proof.
   apply bigint_identical_eq in Ei. subst e.
   exists c0, p0, b, pos, d. auto.
 Qed.
+
+(* a certified state holds no failed constraint in a constant: the final pass rejects it (/repo b4e61a4, F77),
+   as the pre-pass does for address-free constants; the stored value is the expression's value under this state *)
+Theorem certified2_const_not_failed ns1 s d0 e ctx ns2 st :
+  labels_ok2 (ns1 ++ (XConst s d0 e, ctx) :: ns2) st -> Certified2 m banks defs mb (ns1 ++ (XConst s d0 e, ctx) :: ns2) st ->
+  nth s (s_sym st) VUnknown <> VFailed /\
+  exists c0 p0 b pos loc,
+    walk ns1 st (Cursor.init_cursor banks) None = Ok (c0, p0) /\ visit (XConst s d0 e, ctx) c0 p0 = Ok (b, pos) /\
+    eval code_ops (pvar2 m st ctx (Cursor.eval_address mb b pos false) false) e [] = EOk (nth s (s_sym st) VUnknown, loc).
+Proof.
+  intros Hl Hc. destruct (certified2_node _ _ _ _ Hl Hc) as (c0 & p0 & b & pos & Hw & Hv & H).
+  cbn [fst snd] in H. unfold resolve_node2 in H. cbv zeta in H. cbn [negb andb] in H.
+  match type of H with match ?x with EOk _ => _ | EErr => _ end = _ => destruct x as [[v loc]|] eqn:E; [|discriminate] end.
+  assert (Q : v = nth s (s_sym st) VUnknown /\ v <> VFailed).
+  { destruct v; try discriminate;
+      (destruct (value_identical _ (nth s (s_sym st) VUnknown)) eqn:Q; [|discriminate];
+       apply value_identical_eq in Q; split; [exact Q|discriminate]). }
+  destruct Q as [Q Hnf]. split; [rewrite <- Q; exact Hnf|].
+  exists c0, p0, b, pos, loc. rewrite <- Q. auto.
+Qed.
 End Cert.
